@@ -61,7 +61,7 @@ func e2Check(t *testing.T, id, name string, checks int, rule string, p e2Profile
 const e2RuleCommon = "history of user / kubelet / informer-delivery / reconcile-step / clock ops drawn from the ops enabled in the live simulated control plane (real controllers, store and webhooks), then driven to quiescence; "
 
 func TestC05_history(t *testing.T) {
-	p := profileWith(baseProfile, func(p *e2Profile) { p.crashes = true; p.weights["createJob"] = 10 })
+	p := profileWith(baseProfile, func(p *e2Profile) { p.crashes, p.faults = true, true; p.weights["createJob"] = 10 })
 	e2Check(t, "C05", "history", 1500, e2RuleCommon+"oracle: every start write of a Forbid/Enqueue Job is judged against the authoritative active set; counter == truth at quiescence; non-trivial = a Job started into the last free slot, a Job waited/was refused at the limit, or the controller restarted; distinct = distinct trace",
 		p, []string{"C05"}, func(l []string) bool {
 			return hasAny(l, "started-at-last-slot", "enqueue-waiting-at-limit", "rejected-by-queue", "restart")
@@ -69,7 +69,7 @@ func TestC05_history(t *testing.T) {
 }
 
 func TestC06_history(t *testing.T) {
-	p := profileWith(baseProfile, func(p *e2Profile) { p.weights["createJob"] = 12; p.maxJCs = 1 })
+	p := profileWith(baseProfile, func(p *e2Profile) { p.weights["createJob"] = 12; p.maxJCs = 1; p.faults = true })
 	e2Check(t, "C06", "history", 1500, e2RuleCommon+"oracle: rejection / FIFO monitors on every write + fixpoint predicate; non-trivial = a Forbid Job refused at the limit or an Enqueue Job waiting at the limit; distinct = distinct trace",
 		p, []string{"C06"}, func(l []string) bool { return hasAny(l, "rejected-by-queue", "enqueue-waiting-at-limit") })
 }
@@ -93,7 +93,7 @@ func TestC10_history(t *testing.T) {
 }
 
 func TestC11_history(t *testing.T) {
-	p := profileWith(baseProfile, func(p *e2Profile) { p.weights["k-flap"] = 4; p.weights["deletePod"] = 2 })
+	p := profileWith(baseProfile, func(p *e2Profile) { p.weights["k-flap"] = 4; p.weights["deletePod"] = 2; p.faults = true })
 	e2Check(t, "C11", "history", 1500, e2RuleCommon+"oracle: pairwise monotonicity on every Job write + coherence of every status the job controller writes; non-trivial = a status with tasks was written; distinct = distinct trace",
 		p, []string{"C11"}, func(l []string) bool { return hasAny(l, "status-with-tasks") })
 }
@@ -126,4 +126,34 @@ func TestC09_history(t *testing.T) {
 		p, []string{"C09"}, func(l []string) bool {
 			return hasAny(l, "crashed", "restart", "foreign-pod", "fault:reject", "fault:timeout", "fault:conflict", "fault:commit-timeout")
 		})
+}
+
+// TestC07_isolated: tiny workloads (one or two Jobs, nothing else going on), so
+// that only the controller's own deferred re-sync can start a Job whose
+// startAfter comes due.
+func TestC07_isolated(t *testing.T) {
+	p := profileWith(baseProfile, func(p *e2Profile) {
+		p.maxJCs, p.maxJobs, p.steps = 1, 2, 14
+		p.weights["createJob"] = 10
+		p.weights["advance"] = 6
+		p.weights["kill"] = 0
+		p.weights["deleteJob"] = 0
+		p.weights["resync"] = 0
+	})
+	e2Check(t, "C07", "isolated", 1200, "as history, but with at most two Jobs and no other activity, so that a due startAfter can only be honoured by the controller's own deferred re-sync; non-trivial = a Job with startAfter was started; distinct = distinct trace",
+		p, []string{"C07"}, func(l []string) bool { return hasAny(l, "has-startAfter") })
+}
+
+func TestC04_history(t *testing.T) {
+	p := profileWith(baseProfile, func(p *e2Profile) {
+		p.cron, p.crashes = true, true
+		p.weights["tick"] = 14
+		p.weights["advance"] = 12
+		p.weights["createJob"] = 0
+		p.weights["restart"] = 3
+		p.weights["crash"] = 2
+		p.weights["kill"] = 0
+	})
+	e2Check(t, "C04", "history", 1200, e2RuleCommon+"cron workloads with crashes and restarts at generated instants; the real JobConfig controller persists status.lastScheduled, the restarted cron worker reads it; oracle: no schedule time at or before the lastScheduled persisted at the restart instant is requested again, and no schedule time older than start - maxDowntime; non-trivial = a restart happened with a persisted lastScheduled and at least one request afterwards; distinct = distinct trace",
+		p, []string{"C04"}, func(l []string) bool { return hasAny(l, "request-after-restart") })
 }
